@@ -12,6 +12,7 @@ import JanetModel.Marsh.SizeLemmas
 import JanetModel.Marsh.GraphRoundtrip
 import JanetModel.Marsh.GraphInbounds
 import JanetModel.Asm.OperandLemmas
+import JanetModel.Marsh.EnvBitsetLemmas
 
 namespace JanetModel.Props.C09
 open JanetModel.Marsh JanetModel.Gen.Marsh
@@ -101,6 +102,31 @@ theorem read_total_inbounds (fuel n : Nat) (data : List Nat) (v : Val) (rest : L
 /-- Truncated input is rejected, not over-read: the empty buffer decodes to nothing at every depth. -/
 theorem unmarshal_nil (fuel n : Nat) : unmarshalOne fuel n [] = none := by
   cases fuel <;> simp [unmarshalOne]
+
+/-! ### closure environments marshalled from a live frame (early detach path of `marshal_one_env`)
+
+The indexing expression `1 & (bitset[i >> envWordShift] >> (i & envBitMask))` is generated from marsh.c. -/
+
+/-- The slot test reads bit `i` of the closure bitset (32-bit words, least significant first) - for every slot index, in
+particular across the word boundaries 31/32, 63/64, … -/
+theorem env_slot_test_is_bit (bitset : List Nat) (hw : ∀ w ∈ bitset, w < 4294967296) (i : Nat) :
+    slotCaptured bitset i = (bitsetValue bitset).testBit i := slotCaptured_spec' bitset hw i
+
+/-- The loop writes exactly one item per slot of the frame, for any frame size: the slot's value where the bit is set, nil
+elsewhere - no captured slot is dropped, no uncaptured slot leaks. -/
+theorem env_walk_visits_set_bits {α : Type} (bitset : List Nat) (hw : ∀ w ∈ bitset, w < 4294967296) (nil : α)
+    (values : List α) :
+    (envWalk bitset nil values).length = values.length ∧
+    ∀ k, k < values.length →
+      (envWalk bitset nil values)[k]? = some (if (bitsetValue bitset).testBit k then values.getD k nil else nil) := by
+  refine ⟨envWalkFrom_length bitset nil values 0, ?_⟩
+  intro k hk
+  have h := envWalkFrom_spec bitset nil values 0 k hk
+  rw [Nat.zero_add, env_slot_test_is_bit bitset hw k] at h
+  exact h
+
+example : envWalk [0x80000001, 0x3] 0 (List.range 40 |>.map (· + 100)) =
+    [100, 0, 0, 0, 0, 0, 0, 0, 0, 0, 0, 0, 0, 0, 0, 0, 0, 0, 0, 0, 0, 0, 0, 0, 0, 0, 0, 0, 0, 0, 0, 131, 132, 133, 0, 0, 0, 0, 0, 0] := by decide
 
 /-! ### assembler operands (asm ∘ disasm)
 
